@@ -7,8 +7,10 @@ indexing, unwrap/expect, Vec::remove, explicit panics) is discharged on every pa
 (interval / symbolic length facts, typestate invariant of the decoder, Some-ness facts, bounded
 arithmetic) or by a single-symbol allow entry with a reason; (R03.2) no allocation size derives from
 wire-supplied values without a guard against the buffered length; (R03.3) no recursion on the surface
-(stack depth independent of input); (R03.4) no unwrap/expect on a Result.
-Does NOT decide measured heap growth or liveness of other connections."""
+(stack depth independent of input); (R03.4) no unwrap/expect on a Result; (R03.5) isolation, the structural half of
+"other connections keep working": dropping the offending connection forgets that peer only (keyed removals, no bulk
+operation on a shared container: C16 R16.4) and never discards the other peers' queued wake-ups or resets the ticket
+order (C06 R06.5), both re-evaluated. Does NOT decide measured heap growth or liveness of other connections at run time."""
 import os
 from ..sym import Sym, show, walk_expr, PathExplosion
 from ..common import trait_impls, short, coroutine_of, strip_casts, mask_of
@@ -26,6 +28,7 @@ RULES = {
     "R03.2": "allocation-size sinks (reserve/with_capacity/resize/from_elem) never take a wire-derived size unless it is compared with the buffered length",
     "R03.3": "no cycle in the call graph restricted to the attack surface",
     "R03.4": "no unwrap/expect on Result anywhere on the surface",
+    "R03.5": "isolation: dropping one connection forgets that peer only (C16 R16.4) and keeps the others' queued wake-ups and ticket order (C06 R06.5)",
 }
 
 # key -> reason.  Keys carry no line numbers: <rule>|<function>|<callee>#<ordinal among same-callee sites in bb order>
@@ -175,7 +178,29 @@ def tainted(e):
     return None
 
 
+def check_isolation(ctx, f, rep):
+    """R03.5 "other connections of the same socket keep working": dropping the offending connection forgets that peer only
+    (C16 R16.4) and never discards the queued wake-ups or the ticket order of the others (C06 R06.5) - re-evaluated here."""
+    from . import c16, c06
+    from ..report import Report
+    sub = Report("C03", rep.config)
+    c16.analyse_disconnect_impls(f, sub)
+    n = 0
+    for o in sub.obls:
+        if "forgets-only-that-peer" in o.key:
+            n += 1
+            (rep.ok if o.ok else rep.bad)("R03.5", o.key.replace("R16.4", "R03.5", 1), o.what, o.loc, o.detail)
+    sub = Report("C03", rep.config)
+    c06.run(ctx, f, sub)
+    for o in sub.obls:
+        if o.rule == "R06.5":
+            n += 1
+            (rep.ok if o.ok else rep.bad)("R03.5", o.key.replace("R06.5", "R03.5", 1), o.what, o.loc, o.detail)
+    rep.floor("R03.5", "isolation obligations re-evaluated", n, 8)
+
+
 def run(ctx, f, rep):
+    check_isolation(ctx, f, rep)
     edges = callgraph.build(f)
     roots = surface(f)
     rep.floor("R03.1", "attack-surface entry points", len(roots), 25)
